@@ -483,8 +483,22 @@ func checkC19(w *World, r *Report) {
 			t := ep.TypesInfo.TypeOf(ce.Args[0])
 			return t != nil && t.String() == "encoding/xml."+typ
 		}
-		for _, fn := range []string{"encodeXmlChildren", "ToXML"} {
-			xfd, _ := w.FuncDecl(w.Func("data/encoding", fn))
+		// every function of the package that writes element tokens (encodeXmlChildren and ToXML on the reviewed tree)
+		for _, xfd := range funcDecls(ep) {
+			if xfd.Body == nil || isTestFile(w, xfd.Pos()) {
+				continue
+			}
+			writes := false
+			for _, ce := range callsIn(ep, xfd.Body) {
+				writes = writes || isTok(ce, "StartElement") || isTok(ce, "EndElement")
+			}
+			if !writes {
+				continue
+			}
+			fn := funcDeclName(xfd)
+			if dot := strings.LastIndexByte(fn, '.'); dot >= 0 && origDeclName[xfd.Name.Pos()] == "" && convertedDecl[xfd.Name.Pos()] == "" {
+				fn = fn[dot+1:]
+			}
 			iss, o, c := pairCheck(ep, xfd.Body, pairSpec{
 				IsOpen:  func(ce *ast.CallExpr) bool { return isTok(ce, "StartElement") },
 				IsClose: func(ce *ast.CallExpr) bool { return isTok(ce, "EndElement") },
